@@ -176,6 +176,16 @@ type Recorder struct {
 	upds   map[int64]int
 	lines  int
 	by     string
+	// engine of the scenario being recorded: a line that carries another engine (a timer or retry loop of an earlier
+	// scenario's engine waking up late) is dropped under the same mutex that orders the lines
+	cur     pt.TableEngine
+	guarded bool
+}
+
+func (r *Recorder) SetEngine(te pt.TableEngine) {
+	r.mu.Lock()
+	r.cur, r.guarded = te, true
+	r.mu.Unlock()
 }
 
 func NewRecorder(path string) (*Recorder, error) {
@@ -191,6 +201,7 @@ func (r *Recorder) StartTrace(tr int) {
 	r.mu.Lock()
 	r.tr = tr
 	r.seq = 0
+	r.cur = nil
 	r.gids = map[string]int{}
 	r.upds = map[int64]int{}
 	r.mu.Unlock()
@@ -234,6 +245,9 @@ func (r *Recorder) upd(u int64) int {
 func (r *Recorder) Emit(ev string, a Args, res string, te pt.TableEngine, t *pt.Table, pre *PState, same bool) {
 	r.mu.Lock()
 	defer r.mu.Unlock()
+	if r.guarded && te != nil && te != r.cur {
+		return
+	}
 	r.seq++
 	l := Line{Tr: r.tr, N: r.seq, Ev: ev, A: a, Res: res, T: time.Now().Unix(), Same: same, Pre: []PState{}, By: r.by}
 	r.by = ""
